@@ -254,6 +254,20 @@ pub fn run(ctx: &mut Ctx) {
                     expect_val(rep, "in-map-present", &format!("{} in m", kl), &b2, &true.into());
                     expect_val(rep, "in-map-present-var", "k in m", &b3, &true.into());
                     if ident_ok {
+                        // a field name is a name, never a variable: same value when variables spelled like the field
+                        // (or like every key) are bound, and when a macro's loop variable carries that spelling
+                        let mut b4 = b2.clone();
+                        for kk in KEYS.iter().filter(|kk| !kk.is_empty() && kk.is_ascii()) {
+                            b4.push((kk.to_string(), CelValue::from_int(7)));
+                        }
+                        b4.push((k.to_string(), CelValue::from_string("shadow".to_string())));
+                        expect_val(rep, "map-field-shadowed", &format!("m.{}", k), &b4, &v);
+                        expect_val(rep, "map-field-shadowed-nested", &format!("[m][0].{}", k), &b4, &v);
+                        expect_val(rep, "map-field-shadowed-literal", &format!("({}).{}", msrc, k), &{ let mut x = binds.clone(); x.push((k.to_string(), CelValue::from_int(7))); x }, &v);
+                        if !["size", "map", "has"].contains(k) {
+                            expect_val(rep, "map-field-loopvar", &format!("[1].map({}, m.{})[0]", k, k), &b2, &v);
+                            expect_val(rep, "map-field-loopvar-self", &format!("[m].map({}, {}.{})[0]", k, k, k), &b2, &v);
+                        }
                         expect_val(rep, "map-field", &format!("m.{}", k), &b2, &v);
                         expect_val(rep, if dup { "map-field-literal-dup" } else { "map-field-literal" }, &format!("({}).{}", msrc, k), &binds, &v);
                     }
@@ -264,6 +278,9 @@ pub fn run(ctx: &mut Ctx) {
                     expect_err(rep, "map-index-absent-literal", &format!("({})[{}]", msrc, kl), &binds, ErrKind::Absent);
                     expect_val(rep, "in-map-absent", &format!("{} in m", kl), &b2, &false.into());
                     if ident_ok {
+                        let mut b4 = b2.clone();
+                        b4.push((k.to_string(), CelValue::from_string("a".to_string())));
+                        expect_err(rep, "map-field-absent-shadowed", &format!("m.{}", k), &b4, ErrKind::Absent);
                         // also when the field name is the name of a built-in method (size, map, has)
                         expect_err(rep, &format!("map-field-absent|{}", if ["size", "map", "has"].contains(k) { "method-name" } else { "plain" }),
                                    &format!("m.{}", k), &b2, ErrKind::Absent);
